@@ -539,16 +539,21 @@ def run(prop, tier, seed, replay=None, extra_cov=None):
         out = os.path.join(wd, "rec-staleprobe")
         sh("%s/drive-client staleprobe --out %s" % (bindir, out), timeout=600)
         tf = os.path.join(out, "trace.ndjson")
+        # ... and first samples of 1 ns - 1 us (not zero) followed by an ordinary one
+        out_t = os.path.join(wd, "rec-tinyprobe")
+        sh("%s/drive-client tinyprobe --out %s" % (bindir, out_t), timeout=600)
+        with open(tf, "a") as f, open(os.path.join(out_t, "trace.ndjson")) as g:
+            f.write(g.read())
         pbad, _, ptotal, _ = tlc_trace("TraceStale.tla", "TraceStale.cfg", tf, wd, timeout=600)
         plines = [json.loads(l) for l in open(tf)]
         for (p, line, trn, info) in pbad[:3]:
             o = plines[line - 1]
             os.makedirs(REPLAYS, exist_ok=True)
-            path = replay or os.path.join(REPLAYS, "C15-staleprobe-%s.json" % digest([o["cfg_rto"], o["resp_ms"], o["dn"]]))
+            path = replay or os.path.join(REPLAYS, "C15-staleprobe-%s.json" % digest(o))
             if not replay:
                 json.dump({"property": "C15", "kind": "stale-probe", "record": o,
-                           "note": "second request 600 s %+d ns after the first; it started with RTO %s us "
-                                   "(configured %s, estimate %s)" % (o["dn"], o["used_rto"], o["cfg_rto"], o["est_rto"])},
+                           "note": "sub-microsecond probe of the RTT estimator (stale threshold or tiny first sample); "
+                                   "re-run with ./check C15 --replay <this file>"},
                           open(path, "w"), indent=1)
             print("VIOLATION property=C15 replay=%s" % path)
             violations.append((0, out, trn, {"op": "stale", "t": 0, "res": "", "ev": []}))
